@@ -276,11 +276,84 @@ def rule_fail_err(ctx, prog, chk):
 
 
 # ---------------------------------------------------------------------- entry points
+CHECK_CALL = re.compile(r"_is_\w+$|_cmp(_\w+)?$|_on_curve$|^pad_\w+$|_test_\w+$")
+
+
+def rule_check_dead(ctx, prog, chk):
+    """CHECK-DEAD: a local variable assigned from an expression that contains a checking call (is_*, cmp*, on_curve, pad_*)
+    is read on some path before it is assigned again: a check whose outcome is overwritten before anything consults it has
+    been discarded"""
+    n = 0
+
+    def reads_var(fn, e, v):
+        lhs = set()
+        for sub in ir.walk(fn, e):
+            if sub[0] == "=":
+                l = ir.strip_casts(sub[1])
+                if l == ["v", v]:
+                    lhs.add(id(l))
+        return any(sub == ["v", v] and id(sub) not in lhs for sub in ir.walk(fn, e))
+
+    def writes_var(fn, e, v):
+        for sub in ir.walk(fn, e):
+            if sub[0] == "=" and ir.strip_casts(sub[1]) == ["v", v]:
+                return True
+            if sub[0] == "d" and sub[1] == v and sub[2] is not None:
+                return True
+        return False
+    for fn in prog.all:
+        if not (fn.rfile.startswith("src/cp/") or "selftest" in fn.file):
+            continue
+        g = None
+        for el in fn.all_elements():
+            e = el.e
+            if e[0] != "=":
+                continue
+            l = ir.strip_casts(e[1])
+            if not (isinstance(l, list) and l[0] == "v" and fn.vars[l[1]]["k"] == "l"):
+                continue
+            calls = [c[1] for c in ir.calls_in(fn, e[2], follow_refs=True) if c[1] and CHECK_CALL.search(c[1])]
+            if not calls:
+                continue
+            v = l[1]
+            n += 1
+            if g is None:
+                g = ctx.xcfg(prog, fn)
+            live = False
+            seen = set()
+            work = [s for nd in g.nodes if nd.kind == "el" and nd.el.id == el.id for s, _ in nd.succ]
+            while work and not live:
+                nd = work.pop()
+                if nd.id in seen:
+                    continue
+                seen.add(nd.id)
+                if nd.kind == "el":
+                    if reads_var(fn, nd.el.e, v):
+                        live = True
+                        break
+                    if writes_var(fn, nd.el.e, v):
+                        continue
+                elif nd.kind == "br":
+                    t = nd.info.get("term")
+                    if t and t.get("c") is not None and any(x == ["v", v] for x in ir.walk(fn, t["c"], follow_refs=True)):
+                        live = True
+                        break
+                for s2, _ in nd.succ:
+                    work.append(s2)
+            nm = fn.vars[v]["n"]
+            if live:
+                chk.ok("CHECK-DEAD", fn, "%s@%s" % (nm, calls[0]), "outcome of the check is consulted before `%s` is assigned again" % nm, line=el.line)
+            else:
+                chk.fail("CHECK-DEAD", fn, "%s@%s" % (nm, calls[0]), "the outcome of `%s` is stored in `%s` and overwritten (or dropped at the return) before anything reads it: the check has no effect" % (calls[0], nm), line=el.line)
+    return n
+
+
 def analyse(ctx, prog, chk, table=None):
     chk.used_program(prog)
     table = table if table is not None else load_table()
     return {"len_sub": rule_len_sub(ctx, prog, chk), "out_cap": rule_out_cap(ctx, prog, chk),
-            "out_gate": rule_out_gate(ctx, prog, chk, table), "fail_err": rule_fail_err(ctx, prog, chk)}
+            "out_gate": rule_out_gate(ctx, prog, chk, table), "fail_err": rule_fail_err(ctx, prog, chk),
+            "check_dead": rule_check_dead(ctx, prog, chk)}
 
 
 def selfcheck(ctx, prog, chk):
@@ -297,3 +370,4 @@ def run(ctx, chk):
     chk.floor("OUT-CAP", "writes through (out, *out_len) pairs", c["out_cap"], 12)
     chk.floor("OUT-GATE", "recorded gates", c["out_gate"], 2)
     chk.floor("FAIL-ERR", "decryption functions with a check", c["fail_err"], 2)
+    chk.floor("CHECK-DEAD", "check outcomes stored in locals", c["check_dead"], 3)
